@@ -1,6 +1,6 @@
 (* Proofs/ArithProofs.v — proofs about Expand/ArithSyntax.v and Expand/Arith.v (C20). *)
 From Verif Require Import Base.Str Expand.ArithSyntax Expand.Arith Proofs.ArithSyntaxProofs.
-From Coq Require Import ZifyN ZifyNat ZifyBool.
+From Coq Require Import ZifyN ZifyNat ZifyBool Zpow_facts.
 Open Scope Z_scope.
 
 (* ---------------------------------------------------------------- refutation witness *)
@@ -130,4 +130,73 @@ Proof.
   - destruct (a =? 0); reflexivity.
   - unfold go_shl. destruct ((0 <=? a) && (a <? 64)); [reflexivity|congruence].
   - unfold go_shr. destruct ((0 <=? a) && (a <? 64)); [reflexivity|congruence].
+Qed.
+
+(* ---------------------------------------------------------------- intPow = wrapped power *)
+Lemma two64_pos : 0 < two64. Proof. unfold two64; lia. Qed.
+
+Lemma wrap64_mod z : wrap64 z mod two64 = z mod two64.
+Proof.
+  unfold wrap64. rewrite Zminus_mod_idemp_l. f_equal. lia.
+Qed.
+
+Lemma wrap64_congr a b : a mod two64 = b mod two64 -> wrap64 a = wrap64 b.
+Proof.
+  intros H. unfold wrap64. f_equal.
+  rewrite (Zplus_mod a), (Zplus_mod b), H. reflexivity.
+Qed.
+
+Lemma wrap64_mul_l a b : wrap64 (wrap64 a * b) = wrap64 (a * b).
+Proof. apply wrap64_congr. rewrite Zmult_mod, wrap64_mod, <- Zmult_mod. reflexivity. Qed.
+
+Lemma wrap64_mul_r a b : wrap64 (a * wrap64 b) = wrap64 (a * b).
+Proof. rewrite Z.mul_comm, wrap64_mul_l, Z.mul_comm. reflexivity. Qed.
+
+Lemma wrap64_pow c n : 0 <= n -> (wrap64 c ^ n) mod two64 = (c ^ n) mod two64.
+Proof.
+  intros Hn. rewrite (Zpower_mod (wrap64 c) n two64 two64_pos), wrap64_mod, <- Zpower_mod by exact two64_pos.
+  reflexivity.
+Qed.
+
+Lemma pow_loop_spec : forall b a p, pow_loop b a p = wrap64 (p * a ^ Zpos b).
+Proof.
+  induction b as [b IH|b IH|]; intros a p; simpl pow_loop.
+  - rewrite IH.
+    replace (p * a ^ Z.pos b~1) with ((p * a) * (a * a) ^ Z.pos b).
+    2:{ rewrite Pos2Z.inj_xI, Z.pow_add_r, Z.pow_mul_r, Z.pow_1_r, Z.pow_2_r by lia. ring. }
+    apply wrap64_congr.
+    rewrite Zmult_mod, wrap64_mod, wrap64_pow by lia. rewrite <- Zmult_mod. reflexivity.
+  - rewrite IH.
+    replace (p * a ^ Z.pos b~0) with (p * (a * a) ^ Z.pos b).
+    2:{ rewrite Pos2Z.inj_xO, Z.pow_mul_r, Z.pow_2_r by lia. ring. }
+    apply wrap64_congr.
+    rewrite Zmult_mod, wrap64_pow by lia. rewrite <- Zmult_mod. reflexivity.
+  - rewrite Z.pow_1_r. reflexivity.
+Qed.
+
+Lemma wrap64_id2 z : in64 z = true -> wrap64 z = z.
+Proof.
+  unfold in64, wrap64, two63, two64. intros H.
+  apply andb_prop in H. destruct H as [H1 H2]. apply Z.leb_le in H1. apply Z.ltb_lt in H2.
+  rewrite Z.mod_small; lia.
+Qed.
+
+Lemma int_pow_spec a b : 0 <= b -> int_pow a b = wrap64 (a ^ b).
+Proof.
+  intros Hb. unfold int_pow. destruct b as [|p|p]; try lia.
+  - reflexivity.
+  - rewrite pow_loop_spec. f_equal. ring.
+Qed.
+
+Lemma pow_matches x y : bash_bin Pow x y <> BU -> bin_arit Pow x y = to_res (bash_bin Pow x y).
+Proof.
+  simpl. intros Hu. destruct (y <? 0) eqn:E; [reflexivity|].
+  apply Z.ltb_ge in E. rewrite int_pow_spec by exact E.
+  unfold chk in *. destruct (in64 (x ^ y)) eqn:Ei; [|congruence].
+  rewrite (wrap64_id2 _ Ei). reflexivity.
+Qed.
+
+Lemma bin_matches_all o x y : bash_bin o x y <> BU -> bin_arit o x y = to_res (bash_bin o x y).
+Proof.
+  intros Hu. destruct o; try (apply bin_matches; [discriminate|exact Hu]). apply pow_matches. exact Hu.
 Qed.
